@@ -152,6 +152,17 @@ def ord_merge(p, res):
             res.ok(want_src)
         else:
             res.bad(F('ORD-MERGE', init, init.node, want_src, 'type/syntax defaults changed'))
+    for var in ('syntax', 'syntax_type'):
+        nst = [n for n in init.body_nodes() if isinstance(n, ast.Assign) and any(src_of(t) == var for t in n.targets)]
+        if len(nst) == 1:
+            res.ok('%s is assigned once (an unknown name is kept, only its layers are empty)' % var)
+        else:
+            res.bad(F('ORD-MERGE', init, nst[-1] if nst else init.node, ' ; '.join(src_of(n) for n in nst), '`%s` must be taken from the config once and never replaced: an unknown syntax name falls back to the type defaults simply because no layer mentions it' % var))
+    for fld in ('self.type = syntax_type', 'self.syntax = syntax', 'self.user_config = user_config'):
+        if fld in s:
+            res.ok(fld)
+        else:
+            res.bad(F('ORD-MERGE', init, init.node, fld, 'Config field assignment changed'))
     m, node = p.module_const('config', 'DEFAULT_SYNTAXES')
     if p.try_const(m, node) == {'markup': 'html', 'stylesheet': 'css'}:
         res.ok("DEFAULT_SYNTAXES == {'markup': 'html', 'stylesheet': 'css'}")
